@@ -72,8 +72,8 @@ fn run(name: &str, msg: &[u8]) -> bool {
 }
 
 /// Real NTS request (real key set, real AES-SIV-CMAC-256 session keys): header | uid(`uid_len`
-/// payload bytes) | cookie | authenticator with an empty plaintext and a `nonce_len`-byte nonce.
-fn nts_request(keyset: &KeySet, uid_len: usize, nonce_len: usize) -> Vec<u8> {
+/// payload bytes) | cookie | authenticator with an empty plaintext and a 16-byte nonce.
+fn nts_request(keyset: &KeySet, uid_len: usize) -> Vec<u8> {
     use ntp_proto::verif::keyset as kh;
     use ntp_proto::verif::packet::crypto::{AesSivCmac256, Cipher as _};
     let c2s = AesSivCmac256::new([7u8; 32].into());
@@ -90,13 +90,10 @@ fn nts_request(keyset: &KeySet, uid_len: usize, nonce_len: usize) -> Vec<u8> {
     m.extend_from_slice(&[0x02, 0x04]);
     m.extend_from_slice(&((4 + cookie.len()) as u16).to_be_bytes());
     m.extend_from_slice(&cookie);
-    // AES-SIV over the empty plaintext with the prefix as associated data. The repo cipher always
-    // draws a 16-byte nonce; for a shorter request nonce use aes_siv semantics through the same
-    // trait is not possible, so the short-nonce case is produced by `nonce_len` == 16 only here.
+    // AES-SIV over the empty plaintext with the prefix as associated data
     let mut ct = vec![0u8; 64];
     let r = c2s.encrypt(&mut ct, 0, &m).unwrap();
     assert_eq!(r.nonce_length, 16);
-    assert_eq!(nonce_len, 16);
     let total = 8 + r.nonce_length + r.ciphertext_length;
     m.extend_from_slice(&[0x04, 0x04]);
     m.extend_from_slice(&(total as u16).to_be_bytes());
@@ -108,7 +105,7 @@ fn nts_request(keyset: &KeySet, uid_len: usize, nonce_len: usize) -> Vec<u8> {
 
 fn run_nts(name: &str, uid_len: usize) -> bool {
     let keyset = KeySetProvider::new(1).get();
-    let msg = nts_request(&keyset, uid_len, 16);
+    let msg = nts_request(&keyset, uid_len);
     let ip = IpAddr::V4(Ipv4Addr::new(192, 0, 2, 7));
     let recv = NtpTimestamp::from_seconds_nanos_since_ntp_era(100, 0);
     let mk = || {
@@ -138,6 +135,45 @@ fn run_nts(name: &str, uid_len: usize) -> bool {
     n_big.is_some() && n_small.is_none()
 }
 
+/// Observation (not a C19 violation, C19 only bounds the number from above): a standard client
+/// request for 8 cookies (unique identifier, cookie, 7 placeholders) is answered with 7 cookies,
+/// because `nts_timestamp_response` applies `.take(MAX_COOKIES)` to all authenticated fields
+/// (the unique identifier included) before filtering for cookies/placeholders.
+fn cookies_for_standard_request(n: u8) -> usize {
+    use ntp_proto::verif::keyset as kh;
+    use ntp_proto::verif::packet::crypto::AesSivCmac256;
+    let keyset = KeySetProvider::new(1).get();
+    let c2s = AesSivCmac256::new([7u8; 32].into());
+    let s2c = AesSivCmac256::new([9u8; 32].into());
+    let cookie = kh::keyset_encode_cookie(
+        &keyset,
+        &kh::decoded_cookie_from_parts(15, Box::new(AesSivCmac256::new([9u8; 32].into())), Box::new(AesSivCmac256::new([7u8; 32].into()))),
+    );
+    let (req, _id) = NtpPacket::nts_poll_message(&cookie, n, PollIntervalLimits::default().min);
+    let mut reqbuf = [0u8; 2048];
+    let mut cur = std::io::Cursor::new(&mut reqbuf[..]);
+    req.serialize(&mut cur, &c2s, None).unwrap();
+    let len = cur.position() as usize;
+    let config = ServerConfig {
+        denylist: FilterList { filter: vec![], action: FilterAction::Deny },
+        allowlist: FilterList { filter: vec!["0.0.0.0/0".parse().unwrap()], action: FilterAction::Ignore },
+        rate_limiting_cache_size: 0,
+        rate_limiting_cutoff: std::time::Duration::from_secs(1),
+        require_nts: None,
+        accepted_versions: vec![NtpVersion::V4],
+    };
+    let mut server = Server::new_internal(config, Clk, Arc::new(RwLock::new(NtpServerInfo::default())), keyset.clone());
+    let mut out = [0u8; 2048];
+    let mut st = Stats::default();
+    match server.handle(IpAddr::V4(Ipv4Addr::new(192, 0, 2, 7)), NtpTimestamp::from_seconds_nanos_since_ntp_era(100, 0), &reqbuf[..len], &mut out, &mut st) {
+        ServerAction::Respond { message } => {
+            let (p, _) = NtpPacket::deserialize(message, &s2c).unwrap();
+            p.new_cookies().count()
+        }
+        ServerAction::Ignore => usize::MAX,
+    }
+}
+
 fn main() {
     // header (v4, client) | uid EF (type 0x0104, length 4) | uid EF (length 4) | 24 bytes (MAC)
     let mut a = vec![0u8; 80];
@@ -157,6 +193,8 @@ fn main() {
     let vc = run_nts("NTS request, 4-byte unique identifier", 4);
     let vd = run_nts("NTS request, 32-byte unique identifier (control)", 32);
     println!("C17 violated by NTS C: {vc}; by NTS control D: {vd}");
+    println!("standard NTS request asking for 8 cookies (cookie + 7 placeholders) receives {} cookies", cookies_for_standard_request(8));
+    println!("standard NTS request asking for 7 cookies (cookie + 6 placeholders) receives {} cookies", cookies_for_standard_request(7));
     if va || vc {
         std::process::exit(1);
     }
